@@ -25,9 +25,9 @@ type c19Req struct {
 // SV_C19_tally: one or two allegation requests with recorded votes against
 // validators with an arbitrary stake, tallied at block end.
 //
-// sv:bounds request req1 against validator M with 3 possible voters (distinct addresses, as Vote() maintains), each having voted yes, no or not at all; optionally a second request req2 against another validator N with 2 possible voters, inserted before or after req1 in the tracker; activeCount in 1..4; evidence options of the devnet genesis (vote share 50/100, allegation share 50/100, penalty 30/100, bounty 50/100); M's stake S (whole OLT) symbolic, 0 <= S < 2^40, N's stake 1000, N's held by its own address; M's stake account is M's own address or a separate account (then M's own address also holds a symbolic stake with a validator whose address is that account); M's stake address also holds a symbolic stake 0 <= X < 2^40 with a third validator that nobody accuses; nobody frozen before
+// sv:bounds request req1 against validator M with 3 possible voters (distinct addresses, as Vote() maintains), each having voted yes, no or not at all; optionally a second request req2 against another validator N with 2 possible voters, inserted before or after req1 in the tracker; activeCount in 1..4; evidence options of the devnet genesis (vote share 50/100, allegation share 50/100, penalty 30/100, bounty 50/100); M's stake S (whole OLT) symbolic, 0 <= S < 2^40, N's stake 1000, N's held by its own address; M's stake account is M's own address or a separate account (then M's own address also holds a symbolic stake with a validator whose address is that account); M's stake address also holds a symbolic stake 0 <= X < 2^40 with a third validator that nobody accuses; M not frozen before, or frozen for missed votes by an earlier block
 // sv:outside more than two concurrent requests; other option values; votes of validators that are no longer active (the code counts every recorded vote: noted, not asserted); histories
-// sv:goal for each request on its own votes, with required = ceil(active*50/100): guilty iff yes/required > 1/2, else innocent iff no/required > 1/2, else undecided; guilty implies the accused is frozen, its stake records (validator total, its own locked amount) drop by exactly round(S*30/100), the bounty address receives exactly that penalty * 10^18 * 50/100, and the same amount is recorded as the delayed unstake applied to the validator record in the next block; innocent/undecided changes neither stake nor bounty nor frozen status; a decided request leaves the tracker; the stake M's stake address holds with the third validator is never touched and never enters the penalty base
+// sv:goal for each request on its own votes, with required = ceil(active*50/100): guilty iff yes/required > 1/2, else innocent iff no/required > 1/2, else undecided; guilty implies the accused is frozen with a byzantine-fault record dated at the verdict block (whatever record it had) and cannot be released in that block, its stake records (validator total, its own locked amount) drop by exactly round(S*30/100), the bounty address receives exactly that penalty * 10^18 * 50/100, and the same amount is recorded as the delayed unstake applied to the validator record in the next block; innocent/undecided changes neither stake nor bounty nor frozen status; a decided request leaves the tracker; the stake M's stake address holds with the third validator is never touched and never enters the penalty base
 func SV_C19_tally() {
 	e := c10NewEnv(2, 1, 4)
 	S := sv.Int64("stake")
@@ -98,6 +98,14 @@ func SV_C19_tally() {
 		}
 		at.Requests[r.id] = true
 	}
+	// M may already be frozen for missed votes (the block-begin check froze it while the request was open)
+	early := time.Unix(1599990000, 0).UTC()
+	already := sv.Choice("alreadyFrozenForMissedVotes", 2) == 1
+	if already {
+		if _, err := es.CreateSuspiciousValidator(e.cands[0].addr, evidence.MISSED_REQUIRED_VOTES, 1, &early); err != nil {
+			sv.Unreachable("earlier freeze record")
+		}
+	}
 	es.SetAllegationTracker(at)
 	e.st.Commit()
 	e.st.Commit() // version 2 = h-1
@@ -127,6 +135,12 @@ func SV_C19_tally() {
 		_, open := at2.Requests[r.id]
 		if guilty {
 			sv.Assert(frozen, "guilty-validator-is-frozen")
+			// the freeze record is the verdict's: byzantine fault, frozen at this block (the release time counts from here)
+			lvh, lerr := es.GetSuspiciousValidator(r.m.addr, 0, 0)
+			sv.Assert(lerr == nil && lvh.Status == evidence.BYZANTINE_FAULT && lvh.FrozenHeight == height && lvh.FrozenAt != nil && lvh.FrozenAt.Equal(now), "guilty-verdict-is-recorded-as-a-byzantine-fault-frozen-at-the-verdict-block")
+			eo, _ := e.vctx.Govern.GetEvidenceOptions()
+			rerr := es.HandleRelease(eo, r.m.addr, height, now)
+			sv.Assert(rerr != nil && es.IsFrozenValidator(r.m.addr), "guilty-validator-cannot-be-released-in-the-verdict-block")
 			// round half up of S*30/100 = floor((S*30 + 50)/100)
 			pen := (r.S*30 + 50) / 100
 			sv.Assert(T.BigInt().Cmp(big.NewInt(r.S-pen)) == 0 && E.BigInt().Cmp(big.NewInt(r.S-pen)) == 0, "stake-reduced-by-exactly-the-configured-percentage")
@@ -142,7 +156,7 @@ func SV_C19_tally() {
 			sv.Cover(true, "guilty:"+r.id)
 			sv.Observe("penalty:"+r.id, pen)
 		} else {
-			sv.Assert(!frozen, "not-guilty-means-not-frozen")
+			sv.Assert(frozen == (already && r.id == "req1"), "not-guilty-changes-no-freeze")
 			sv.Assert(T.BigInt().Cmp(big.NewInt(r.S)) == 0 && E.BigInt().Cmp(big.NewInt(r.S)) == 0, "not-guilty-changes-no-stake")
 			sv.Assert(open == !innocent, "request-stays-open-exactly-while-undecided")
 			sv.Cover(innocent, "innocent:"+r.id)
